@@ -23,7 +23,7 @@ from vk.report import Collector, Report, run_parallel, std_args
 
 PROP = "C05"
 HARNESS = os.path.join(os.path.dirname(os.path.abspath(__file__)), "h05.py")
-LIBS = ["comp", "alias", "conn", "redecl", "func", "imports"]
+LIBS = ["comp", "alias", "conn", "redecl", "func", "imports", "assembled"]
 
 
 def repo_pairs(path):
@@ -67,17 +67,21 @@ def _cli_lib(item):
     d = tempfile.mkdtemp(prefix="c05_")
     try:
         env = dict(os.environ, PYTHONPATH=f"{REPO}/src:{REPO}")
-        text, names = L[lib]
-        for i, v in enumerate((3, 4, 5, 6)):
-            text = text.replace(str(7001 + i), str(v))
-        open(os.path.join(d, lib + ".mo"), "w").write(text)
+        texts, names = L[lib]
+        texts = texts if isinstance(texts, list) else [texts]
+        paths = []
+        for fi, text in enumerate(texts):
+            for i, v in enumerate((3, 4, 5, 6)):
+                text = text.replace(str(7001 + i), str(v))
+            paths.append(os.path.join(d, f"{lib}{fi}.mo"))
+            open(paths[-1], "w").write(text)
         names = [x for x in names] + ["DoesNotExist"]
 
         def run(models, target):
             argv = [sys.executable, "-m", "tools.compiler", "-o", d] + (["-t", "sympy"] if target else [])
             for m in models:
                 argv += ["-m", m]
-            p = subprocess.run(argv + [os.path.join(d, lib + ".mo")], cwd=d, env=env, capture_output=True, text=True, timeout=600)
+            p = subprocess.run(argv + paths, cwd=d, env=env, capture_output=True, text=True, timeout=600)
             return p.returncode
         for target in targets:
             alone = {m: run([m], target) for m in names}
@@ -152,7 +156,7 @@ def main():
             gs = [0, 0] if v.func == "seq2" else [args[0], args[2], args[4]]
             seq = [("generate " if g else "flatten ") + names[k] for g, k in zip(gs, ks) if 0 <= k < len(names)]
             rep.violation(f"{lib}:" + ";".join(seq), f"request sequence {seq} on one tree of library '{lib}' differs from fresh parses (harness: {res or p.stderr[-200:]})",
-                          {"lib": lib, "function": v.func, "args": args, "library_text": L[lib][0]})
+                          {"lib": lib, "function": v.func, "args": args, "library_text": str(L[lib][0])})
     files = sorted(glob.glob(REPO + "/test/models/*.mo"))
     if a.tier == "quick":
         files = files[::2]
@@ -167,7 +171,7 @@ def main():
     cov["exhaustive"] = all(v.kind == "confirmed" for v in vs)
     cov["functions_encoded"] = ["pymoca.tree.flatten (find_class, flatten_class, build_instance_tree, flatten_symbols, expand_connectors, annotate_states) and casadi generator.generate, "
                                 "called repeatedly on one tree (executed symbolically by CrossHair)"]
-    cov["bounds"] = ("6 generated libraries (component, type alias in a package, connectors, redeclare, functions, qualified/unqualified imports) of 2-3 requestable classes with 4 symbolic integer literals each; all request sequences of length 2 (thorough: length 3, each step flatten or "
+    cov["bounds"] = ("7 generated libraries (component, type alias in a package, connectors, redeclare of a class holding a modified component, a function calling a function, qualified/unqualified imports, a package assembled from three files with Tree.extend) of 2-3 requestable classes with 4 symbolic integer literals each; all request sequences of length 2 (thorough: length 3, each step flatten or "
                      "CasADi generate); concrete: ordered class pairs of the repository's test models (quick: every second file), real CLI with every ordered pair of models per library")
     rep.assumptions += ["the oracle is the same request on an independently unpickled tree", "results are compared as Node.to_json structures (symbolic leaves compared by the solver)"]
     return rep.finish()
